@@ -1161,7 +1161,7 @@ func (x *Exec) tuple(res []*Value, t types.Type) *Value {
 func (x *Exec) runDefers(st *State, fr *Frame) bool {
 	for len(fr.Defers) > 0 {
 		d := fr.Defers[len(fr.Defers)-1]
-		fr.Defers = fr.Defers[:len(fr.Defers)-1]
+		fr.Defers = append([]*Defer(nil), fr.Defers[:len(fr.Defers)-1]...)
 		pushed := x.call(st, fr, d.Call, d.Args, d.Fn, d.Pos, true)
 		if pushed {
 			return false
@@ -1175,7 +1175,8 @@ func (x *Exec) gotoBlock(st *State, b *ssa.BasicBlock) bool {
 	fr := st.top()
 	// leave loops that do not contain b
 	for len(fr.Open) > 0 && !fr.Open[len(fr.Open)-1].Blocks[b] {
-		fr.Open = fr.Open[:len(fr.Open)-1]
+		// copy: the backing array may be shared with a forked state
+		fr.Open = append([]*Loop(nil), fr.Open[:len(fr.Open)-1]...)
 	}
 	for _, l := range x.P.Loops(fr.Fn) {
 		if l.Header != b {
@@ -1199,6 +1200,9 @@ func (x *Exec) gotoBlock(st *State, b *ssa.BasicBlock) bool {
 			}
 			fr.Prev, fr.Block, fr.Idx = fr.Block, b, 0
 			return true
+		}
+		if os.Getenv("GOVC_DEBUG") == "2" {
+			fmt.Fprintf(os.Stderr, "LOOP %s header b%d open=%v nopen=%d from b%d\n", fr.Fn.Name(), b.Index, open, len(fr.Open), fr.Block.Index)
 		}
 		if open {
 			// back edge: invariant preserved
@@ -1604,11 +1608,19 @@ func (x *Exec) atReturn(st *State, res []*Value, ins *ssa.Return) {
 	if fc == nil {
 		return
 	}
+	// in postconditions parameter names denote the values at entry
 	env := x.envFor(st, x.entry, fr)
+	for k, v := range x.entryParams {
+		env.vars[k] = v
+	}
 	env = env.withResults(res, x.fn)
 	// ghost effects of this function's own contract are applied at its exit
 	x.applyGhost(st, env, fc)
-	env = x.envFor(st, x.entry, fr).withResults(res, x.fn)
+	env = x.envFor(st, x.entry, fr)
+	for k, v := range x.entryParams {
+		env.vars[k] = v
+	}
+	env = env.withResults(res, x.fn)
 	x.batchCtr++
 	x.batch = x.batchCtr
 	defer func() { x.batch = 0 }()
